@@ -59,13 +59,13 @@ type builder struct {
 	// component's output is evaluated the second time, i.e. page data and page loop variables.
 	pageIfOnly bool
 	dropped    int // v-if candidates removed by pageIfOnly
-	ids  int
-	lits int
-	vars int
+	ids        int
+	lits       int
+	vars       int
 }
 
-func (b *builder) id(p string) string  { b.ids++; return fmt.Sprintf("%s%d", p, b.ids) }
-func (b *builder) lit() Part           { b.lits++; return Part{L: fmt.Sprintf("L%d", b.lits)} }
+func (b *builder) id(p string) string    { b.ids++; return fmt.Sprintf("%s%d", p, b.ids) }
+func (b *builder) lit() Part             { b.lits++; return Part{L: fmt.Sprintf("L%d", b.lits)} }
 func (b *builder) fresh(p string) string { b.vars++; return fmt.Sprintf("%s%d", p, b.vars) }
 
 func pick(b *builder, label string, l []sv) sv {
